@@ -820,6 +820,13 @@ func (env *Env) elabQuant(x EQuant) (Val, error) {
 		if t != mathInt && b.Type != "int" {
 			guards = append(guards, env.P.sorts.typeAssume(v, t))
 		}
+		// a pointer to a struct type that is never embedded by value denotes a whole object, not an interior
+		// address of another object
+		if pt, ok := t.Underlying().(*types.Pointer); ok {
+			if _, isStruct := pt.Elem().Underlying().(*types.Struct); isStruct && !env.P.embeddable(pt.Elem()) {
+				guards = append(guards, eq(app("Int", "iaoff", v), Term{"0", "Int"}))
+			}
+		}
 	}
 	body, err := c.elabBool(x.Body)
 	if err != nil {
